@@ -1,4 +1,5 @@
 import Logrange.Proofs.LqlInt
+import Logrange.Proofs.LqlLexNP
 /-!
 # C12 — LQL statements keep their meaning through print and re-parse
 
@@ -408,5 +409,86 @@ theorem intOK_every_int64 (i : Int) (h1 : -(2 ^ 63) ≤ i) (h2 : i < 2 ^ 63) : i
 
 theorem offset_limit_text_roundtrip (i : Int) (h1 : -(2 ^ 63) ≤ i) (h2 : i < 2 ^ 63) : parseInt0 (decInt i) = some i :=
   parseInt0_decInt i h1 h2
+
+/-! ## the participle engine on the REGENERATED grammar = the direct parsers (expressions, sources): proved
+
+`Proofs/LqlEngine*.lean`: one-step equations of the interpreter (`parseSeq`/`parseDisj`/`parseRep`/optional group), then per
+struct of the regenerated grammar (`grammar "Identifier" = some identBody` … by `rfl` against `Generated/C12.lean`) a
+simulation lemma between the interpreter on that struct's node tree and the direct parser function, for EVERY token list, cursor
+and nesting depth (induction on the remaining tokens; the `{"," @@}`, `{"AND" @@}`, `{"OR" @@}` loops by their own induction;
+swallowed soft errors, the one-token `Stop` rule and nil-vs-empty values are followed exactly). Hypothesis `OperandNotParen`:
+no Ident/Keyword token is spelled `(` (decidable; true of every token list the lexer produces — the direct parser commits to
+"condition" on an operand token, the engine would still try the parenthesis). Fuels: the engine's `60·n+200` and the direct
+parser's `directFuel = 4·n+16` are the ones the models use (both proved sufficient); the conversion fuel must be ≥ `cvExpr e`. -/
+
+instance (toks : List Tok) : Decidable (OperandNotParen toks) := by unfold OperandNotParen; exact inferInstance
+
+/-- **engine = direct parser, root `Expression`** (`lql.ParseExpr` after lexing): same acceptance, same AST -/
+theorem engine_eq_direct_expr (toks : List Tok) (hH : OperandNotParen toks) (ft : Nat)
+    (hft : ∀ e, directExpr toks = some e → cvExpr e ≤ ft) :
+    (runEngine Logrange.Generated.C12.grammar "Expression" toks).bind (toExpr ft) = directExpr toks := by
+  have h := engine_direct_expr toks hH
+  cases hd : directExpr toks with
+  | none => rw [hd] at h; rw [h]; rfl
+  | some e =>
+    rw [hd] at h
+    obtain ⟨v, hv, _, hc⟩ := h
+    rw [hv]; simp [hc ft (hft e hd)]
+
+/-- **engine = direct parser, root `Source`** (`lql.ParseSource` after lexing) -/
+theorem engine_eq_direct_source (toks : List Tok) (hH : OperandNotParen toks) (ft : Nat)
+    (hft : ∀ s, directSource toks = some s → cvSource s ≤ ft) :
+    (runEngine Logrange.Generated.C12.grammar "Source" toks).bind (toSource ft) = directSource toks := by
+  have h := engine_direct_source toks hH
+  cases hd : directSource toks with
+  | none =>
+    rw [hd] at h
+    rcases h with h | ⟨v, hv, hn⟩
+    · rw [h]; rfl
+    · rw [hv]; simp [hn ft]
+  | some s =>
+    rw [hd] at h
+    obtain ⟨v, hv, hc⟩ := h
+    rw [hv]; simp [hc ft (hft s hd)]
+
+/-- acceptance alone needs no fuel hypothesis at all: the engine accepts an expression exactly when the direct parser does -/
+theorem engine_accepts_iff_direct_expr (toks : List Tok) (hH : OperandNotParen toks) :
+    (runEngine Logrange.Generated.C12.grammar "Expression" toks).isSome = (directExpr toks).isSome := by
+  have h := engine_direct_expr toks hH
+  cases hd : directExpr toks with
+  | none => rw [hd] at h; rw [h]; rfl
+  | some e => rw [hd] at h; obtain ⟨v, hv, _, _⟩ := h; rw [hv]; rfl
+
+/-- non-vacuity: the tokens of the nested example satisfy the hypothesis, are accepted, and a mis-spelled operand token is
+what the hypothesis excludes (there the two parsers really differ: the engine reads a parenthesis, the direct parser fails) -/
+example : OperandNotParen (toksExpr exE) ∧ (directExpr (toksExpr exE)).map canonExpr = some (canonExpr exE)
+    ∧ cvExpr exE = 30 := by decide +kernel
+example : (runEngine Logrange.Generated.C12.grammar "Expression" (toksExpr exE)).bind (toExpr 30) = directExpr (toksExpr exE) :=
+  engine_eq_direct_expr _ (by decide +kernel) 30 (by
+    intro e he
+    have : (directExpr (toksExpr exE)).map cvExpr = some 30 := by decide +kernel
+    rw [he] at this; simp at this; omega)
+example : ¬ OperandNotParen [⟨.ident, [40]⟩, ⟨.ident, [97]⟩, ⟨.operator, [61]⟩, ⟨.string, [49]⟩, ⟨.operator, [41]⟩]
+    ∧ (runEngine Logrange.Generated.C12.grammar "Expression" [⟨.ident, [40]⟩, ⟨.ident, [97]⟩, ⟨.operator, [61]⟩, ⟨.string, [49]⟩, ⟨.operator, [41]⟩]).isSome = true
+    ∧ (directExpr [⟨.ident, [40]⟩, ⟨.ident, [97]⟩, ⟨.operator, [61]⟩, ⟨.string, [49]⟩, ⟨.operator, [41]⟩]).isNone = true := by
+  decide +kernel
+
+/-- **the lexer only produces token lists that satisfy the hypothesis** (no Ident/Keyword token is spelled `(`) -/
+theorem lexed_tokens_operand_not_paren (text : Bytes) (ts : List Tok) (h : lex text = some ts) : OperandNotParen ts :=
+  lex_operandNotParen text ts h
+
+/-- **`lql.ParseExpr` through the engine on the regenerated grammar = through the direct parser, on every text** -/
+theorem engine_eq_direct_expr_lexed (text : Bytes) (ts : List Tok) (h : lex text = some ts) (ft : Nat)
+    (hft : ∀ e, directExpr ts = some e → cvExpr e ≤ ft) :
+    (runEngine Logrange.Generated.C12.grammar "Expression" ts).bind (toExpr ft) = directExpr ts :=
+  engine_eq_direct_expr ts (lex_operandNotParen text ts h) ft hft
+
+/-- … and `lql.ParseSource` likewise -/
+theorem engine_eq_direct_source_lexed (text : Bytes) (ts : List Tok) (h : lex text = some ts) (ft : Nat)
+    (hft : ∀ s, directSource ts = some s → cvSource s ≤ ft) :
+    (runEngine Logrange.Generated.C12.grammar "Source" ts).bind (toSource ft) = directSource ts :=
+  engine_eq_direct_source ts (lex_operandNotParen text ts h) ft hft
+
+example : (lex (txt "a = \"1\" AND NOT ( b like \"x\" OR f(c,d) PREFIX \"5\" )")).isSome = true := by decide +kernel
 
 end Logrange.Props.C12
